@@ -59,8 +59,14 @@ func (x *Exec) spawn(fr *frame, fn Value, args []Value) {
 	ts := x.ensureThreads()
 	t := &thread{id: len(ts.threads), resume: make(chan bool), fn: fn, args: args, caller: fr}
 	ts.threads = append(ts.threads, t)
-	if len(ts.threads) > 8 {
-		x.abort(Unwind, "more than 8 threads")
+	live := 0
+	for _, o := range ts.threads {
+		if !o.done {
+			live++
+		}
+	}
+	if live > 8 || len(ts.threads) > 32 {
+		x.abort(Unwind, "more than 8 live (32 total) threads")
 	}
 }
 
